@@ -19,10 +19,16 @@ Next == \/ l = 0 /\ l' \in {j \in 1..Len(Trace) : j % Chunk = 1}
         \/ l > 0 /\ l % Chunk # 0 /\ l < Len(Trace) /\ l' = l + 1
 B == Trace[IF l = 0 THEN 1 ELSE l]
 
+IsOnce == B.kind = "once"
 \* every token of the profile was handed out exactly once; every goroutine saw the end exactly once
-AllTokensOnce   == l = 0 \/ \A i \in 1..Len(B.trials) : B.trials[i].ok = B.n /\ B.trials[i].end = B.g
+AllTokensOnce   == l = 0 \/ ~IsOnce \/ \A i \in 1..Len(B.trials) : B.trials[i].ok = B.n /\ B.trials[i].end = B.g
 \* all tokens and all finish times of a once(n) profile are ONE instant
-OneStartInstant == l = 0 \/ \A i \in 1..Len(B.trials) : B.trials[i].dist = 1
+OneStartInstant == l = 0 \/ ~IsOnce \/ \A i \in 1..Len(B.trials) : B.trials[i].dist = 1
+\* an unlimited(1 h) part that nobody started: every Next() gets a token (the hour is not over), and every Left(),
+\* however close to the first Next(), is negative - LeafLeft(unl) = -1 while ~startd \/ now < fin; never 0
+UnlNeverFinished == l = 0 \/ IsOnce \/ \A i \in 1..Len(B.trials) :
+                        /\ B.trials[i].end = 0 /\ B.trials[i].ok = B.g \div 2
+                        /\ B.trials[i].leftneg = B.trials[i].leftall
 \* ... which was taken while the trial ran (not the zero time, not a stale or future reading)
 StartedInTrial  == l = 0 \/ \A i \in 1..Len(B.trials) : ~B.trials[i].loneg /\ ~B.trials[i].hineg
 =============================================================================
